@@ -232,6 +232,8 @@ func runC18(c *Ctx) {
 		c.Check(hasAppend, rBuf, p.FuncKey(w)+":appends", FirstPos(p, w), "the writer appends the message to the buffer", "the writer does not append to the buffer")
 	}
 
+	s.checkTrimKeepsNewest(c, "trim-keeps-newest")
+
 	// ------------------------------------------------------------------ (3)
 	ls := p.Locksets(s.Runner)
 	rAt := c.Rule("snapshot-subscribe-atomic", "the function that hands the snapshot to a new observer registers that observer while mx is still held (no line can be written in between); the writer appends and fans out to the observers in one critical section of mx")
@@ -295,6 +297,7 @@ func runC18(c *Ctx) {
 
 	// ------------------------------------------------------------------ (4)
 	s.checkBlockingUnderLocksFiltered(c, ls, "observers-nonblocking", map[*types.Var]bool{fMx: true})
+	s.checkConsumerBeforeProducer(c, "consumer-before-subscription")
 
 	// ------------------------------------------------------------------ (5)
 	rLock := c.Rule("buffer-under-lock", "every read or write of ProcessLogBuffer.buffer / observers outside the constructor holds mx of the same buffer")
@@ -364,4 +367,101 @@ func ConstOfObj(c *types.Const) (int64, bool) {
 		return 0, false
 	}
 	return i, true
+}
+
+// checkTrimKeepsNewest (C18, C11): the writer only ever drops the oldest lines.
+func (s *Sel) checkTrimKeepsNewest(c *Ctx, ruleID string) {
+	p := c.P
+	rule := c.Rule(ruleID, "every value the writer stores back into the buffer is either the result of append on the buffer or a suffix slice buffer[k:] of it (no upper bound): a trim can only drop the oldest lines, never the line just written")
+	fBuffer := p.Field("pclog", "ProcessLogBuffer", "buffer")
+	ctor := p.Func("pclog", "NewLogBuffer")
+	n := 0
+	for _, f := range p.Funcs {
+		if f == ctor {
+			continue
+		}
+		for _, in := range DirectSites(f, StoreTo("buffer", fBuffer)) {
+			n++
+			c.Touch(f)
+			v, _ := StoredValue(in, fBuffer)
+			ok := false
+			switch x := stripConv(v).(type) {
+			case *ssa.Call:
+				if b, isB := x.Call.Value.(*ssa.Builtin); isB && b.Name() == "append" && PathOf(x.Call.Args[0]).LastField() == fBuffer {
+					ok = true
+				}
+			case *ssa.Slice:
+				if PathOf(x.X).LastField() == fBuffer && x.High == nil && x.Max == nil {
+					ok = true
+				}
+			}
+			c.Check(ok, rule, p.FuncKey(f), p.InstrPos(in), "append or suffix slice", "the writer stores back something other than append(buffer, line) or a suffix buffer[k:] (e.g. a copy truncated to size): at every trim the newest line is lost from the in-memory log")
+		}
+	}
+	if n < 2 {
+		c.Bad(rule, "floor", "", "expected an append and a trim in the writer")
+	}
+}
+
+// checkConsumerBeforeProducer (C18, C19, C20): in the websocket handler the
+// goroutine that drains the per-process channel is started before the
+// subscription that fills it under the buffer mutex.
+func (s *Sel) checkConsumerBeforeProducer(c *Ctx, ruleID string) {
+	p := c.P
+	rule := c.Rule(ruleID, "in every function that subscribes an observer whose callbacks send on a bounded channel, the go statement starting the consumer of that channel precedes the subscription call on every path (the snapshot hand-over pushes the whole tail into the channel while the buffer mutex is held)")
+	sub := p.IfaceMethod("app", "IProject", "GetLogsAndSubscribe")
+	n := 0
+	for _, f := range p.FuncsOfPkg("api") {
+		subs := DirectSites(f, CallOf("GetLogsAndSubscribe", sub))
+		if len(subs) == 0 {
+			continue
+		}
+		// channels made in f that closures send on
+		var chans []*ssa.MakeChan
+		AllInstrs(f, func(in ssa.Instruction) {
+			if mk, ok := in.(*ssa.MakeChan); ok {
+				chans = append(chans, mk)
+			}
+		})
+		for _, mk := range chans {
+			sentByClosure := false
+			for _, an := range f.AnonFuncs {
+				AllInstrs(an, func(in ssa.Instruction) {
+					if sd, ok := in.(*ssa.Send); ok {
+						srcs, _ := p.Sources(sd.Chan)
+						for _, l := range srcs {
+							if l == ssa.Value(mk) {
+								sentByClosure = true
+							}
+						}
+					}
+				})
+			}
+			if !sentByClosure {
+				continue
+			}
+			n++
+			c.Touch(f)
+			consumer := p.Deep(Site{Name: "go consumer", Instr: func(in ssa.Instruction) bool {
+				g, ok := in.(*ssa.Go)
+				if !ok {
+					return false
+				}
+				for _, a := range g.Call.Args {
+					srcs, _ := p.Sources(a)
+					for _, l := range srcs {
+						if l == ssa.Value(mk) {
+							return true
+						}
+					}
+				}
+				return false
+			}})
+			r := MustPrecede(f, consumer, func(in ssa.Instruction) bool { return isOneOf(in, subs) }, nil)
+			c.PathCheck(r, rule, p.FuncKey(f), FirstPos(p, f), "the consumer is running before the subscription fills the channel", "the subscription (which pushes the whole tail into a bounded channel while the log buffer's mutex is held) can run before the goroutine that drains the channel is started: a tail longer than the channel blocks forever with the mutex held - the follower gets nothing and the process's output handling and every other log request hang")
+		}
+	}
+	if n == 0 {
+		c.Bad(rule, "none", "", "no websocket subscription with a bounded channel found")
+	}
 }
